@@ -71,11 +71,24 @@ def broken_resource(rng):
     return {'lmf_version': '1.1', 'lexicons': [lx]}
 
 
-def gen_history(rng, tier):
-    scenario = rng.choice(['random', 'random', 'provider_swap', 'ext_cycle', 'readd', 'failed_add'])
-    force = {'provider_swap': {'dep', 'v2'}, 'ext_cycle': {'ext'}, 'readd': {'ext', 'dep'}}.get(scenario)
+def gen_history(rng, tier, scenario=None):
+    scenario = scenario or rng.choice(['random', 'random', 'provider_swap', 'ext_cycle', 'readd', 'failed_add', 'dep_on_ext'])
+    force = {'provider_swap': {'dep', 'v2'}, 'ext_cycle': {'ext'}, 'readd': {'ext', 'dep'},
+             'dep_on_ext': {'ext', 'dep'}}.get(scenario)
     u = gendoc.gen_universe(rng, size=2, ext_forms=True, force=force)
     names = [n for n, _ in u]
+    if scenario == 'dep_on_ext':
+        # a lexicon that requires a lexicon *extension*; the dependent is installed before, between or after base and
+        # extension, and the extension is removed and added again: the provider link must name the extension itself
+        bb = dict(u)['bb:1']['lexicons'][0]
+        bb['requires'] = [r_ for r_ in bb.get('requires', []) if r_['id'] != 'xa'] + [{'id': 'xa', 'version': '1'}]
+        rng.shuffle(bb['requires'])
+        hist = rng.choice([[['add', 'bb:1'], ['add', 'ba:1'], ['add', 'xa:1']],
+                           [['add', 'ba:1'], ['add', 'bb:1'], ['add', 'xa:1']],
+                           [['add', 'ba:1'], ['add', 'xa:1'], ['add', 'bb:1'], ['remove', 'xa:1'], ['add', 'xa:1']]])
+        if rng.random() < 0.4:
+            hist = hist + [['remove', 'xa:1']]
+        return u, hist
     if scenario == 'provider_swap':
         hist = [['add', 'ba:1'], ['add', 'bb:1'], ['remove', 'ba:1'], ['add', 'ba:2']]
         if rng.random() < 0.5:
@@ -170,7 +183,7 @@ def run(rep, tier, build, replay=None):
         return
     schema = build.probe['SCHEMA']
     n = 48 if tier == 'quick' else 700
-    cases = [corpus_f3()] + [gen_history(rng, tier) for _ in range(n - 1)]
+    cases = [corpus_f3(), gen_history(rng, tier, 'dep_on_ext')] + [gen_history(rng, tier) for _ in range(n - 2)]
     hs = []
     fresh = []
     sims = []
